@@ -498,7 +498,7 @@ def _gen_particles(rng, d, K):
         ctr = g.uniform(0.2, 0.8, size=d)
         a = g.standard_normal((d, d)) * 0.03 + np.eye(d) * 0.05
         kind = rng.choice(["gauss", "heavy", "heavy"])
-        z = g.standard_normal((nj, d)) if kind == "gauss" else g.standard_t(rng.choice([2, 3, 5]), size=(nj, d))
+        z = g.standard_normal((nj, d)) if kind == "gauss" else g.standard_t(rng.choice([0.7, 1, 2, 3, 5]), size=(nj, d))
         us.append(ctr + z @ a.T)
         labs += [raw[j]] * nj
     u = np.vstack(us)
@@ -525,7 +525,11 @@ def correspond_modes(tier):
         K = 1 if rng.random() < 0.35 else rng.randint(2, 3)
         kind = "global" if (K == 1 and rng.random() < 0.7) else "particles"
         u, w, labels = _gen_particles(rng, d, K)
-        fb = rng.choice([None, None, 1e6, 7.5, 12345.678])
+        fb_spec = rng.choice(base.FB_SPECS)
+        fb = base.make_fb(fb_spec)
+        wform, uform = rng.choice(["array", "array", "list", "int", "int_list"]), rng.choice(["c64", "c64", "fortran", "list"])
+        w_in, u_in = base.form_w(w, wform), base.form_u(u, uform)
+        w = np.asarray(w_in, dtype=float)          # the values actually handed over (integer forms are rounded weights)
         rf = rng.choice([None, None, 1, 2, 3])
         seed = rng.getrandbits(31)
         if t % 15 == 14:
@@ -533,34 +537,38 @@ def correspond_modes(tier):
             which = rng.choice(["w", "labels"]) if kind == "particles" else "w"
             w2, l2 = (w[:-1], labels) if which == "w" else (w, labels[:-1])
             try:
-                run_modes_real(kind, u, w2, l2, fb, rf, seed)
+                run_modes_real(kind, u, np.asarray(w2, dtype=float), l2, fb, rf, seed)
                 got = "returned"
             except ValueError as e:
                 got = "valueerror"
             except Exception as e:  # noqa
                 got = f"raised {type(e).__name__}: {e}"
-            ans = drv.batch([_modes_line(kind, u, w2, l2, 1e6 if fb is None else fb, 4 if rf is None else rf, [], ["echo"])])[0]
+            ans = drv.batch([_modes_line(kind, u, w2, l2, 1e6 if fb is None else float(fb), 4 if rf is None else rf, [], ["echo"])])[0]
             c.case((kind, len(u), which, seed), True)
             c.count("shape_check_valueerror")
             if got != "valueerror" or ans != "valueerror":
                 c.disagree(input=f"{kind} N={len(u)} with {which} one short", impl=got, model=ans)
             continue
         try:
-            ms, seen = run_modes_real(kind, u, w, labels, fb, rf, seed)
+            ms, seen = run_modes_real(kind, u_in, w_in, labels, fb, rf, seed)
         except Exception as e:  # noqa
-            c.disagree(input=f"{kind} N={len(u)} K={K} d={d} seed={seed}", impl=f"raised {type(e).__name__}: {e}", model="-")
+            c.disagree(input=f"{kind} N={len(u)} K={K} d={d} seed={seed} fb={fb!r} weights as {wform} u as {uform}",
+                       impl=f"raised {type(e).__name__}: {e}", model="-")
             c.case((t,), False)
             continue
-        fbv = 1e6 if fb is None else fb
+        fbv = 1e6 if fb is None else float(fb)
         rfv = 4 if rf is None else rf
+        c.count("fallback_form_" + ("default" if fb_spec is None else fb_spec[0]))
+        c.count("weights_form_" + wform)
+        c.count("u_form_" + uform)
         total = sum(sz for (_, sz, _, _, _) in seen["choice"])
         us = _uniform_stream(seed, total)
         nm = len(seen["fit"])
         tapes = [_tape_str(f["r"]["tape"]) for f in seen["fit"]]
         lines.append(_modes_line(kind, u, w, labels, fbv, rfv, us, ["echo"] * max(nm, 1)))
         lines.append(_modes_line(kind, u, w, labels, fbv, rfv, us, tapes))
-        cases.append((kind, u, w, labels, fbv, rfv, seed, ms, seen))
-        c.case((kind, len(u), K, d, fb, rf, seed), True)
+        cases.append((kind, u, w, labels, fbv, rfv, seed, ms, seen, {"fb_spec": fb_spec, "wform": wform, "uform": uform}))
+        c.case((kind, len(u), K, d, repr(fb_spec), wform, uform, rf, seed), True)
         c.count(kind)
         c.count(f"K={K}")
         c.count(f"d={d}")
@@ -572,10 +580,10 @@ def correspond_modes(tier):
             if f["args"] != ((), {}):
                 c.count("fit_called_with_arguments")
     res = drv.batch(lines)
-    for i, (kind, u, w, labels, fbv, rfv, seed, ms, seen) in enumerate(cases):
+    for i, (kind, u, w, labels, fbv, rfv, seed, ms, seen, forms) in enumerate(cases):
         echo, ans = res[2 * i], res[2 * i + 1]
         d = u.shape[1]
-        info = dict(kind=kind, N=len(u), d=d, seed=seed, fb=fbv, rf=rfv)
+        info = dict(kind=kind, N=len(u), d=d, seed=seed, fb=fbv, rf=rfv, **forms)
         pe, pa = _parse_built(echo), _parse_built(ans)
         if pe is not None and pa is None and ans == "raised" and \
                 any(not base._comparable(f["r"], f["x"])[1] for f in seen["fit"]):
@@ -618,7 +626,9 @@ def correspond_modes(tier):
                     probs.append(f"mode {k}: |model-real|/scale = {wv:.3g}")
                 dr = float(np.asarray(ms.degrees_of_freedom, dtype=float)[k])
                 if not (pa[3][k] == dr):
-                    probs.append(f"mode {k}: dof model={pa[3][k]!r} real={dr!r} (fit returned {r['nu']!r}, fallback {fbv!r})")
+                    probs.append(f"mode {k}: dof model={pa[3][k]!r} real={dr!r} (fit returned {r['nu']!r}, fallback {fbv!r} given as "
+                                 f"{forms['fb_spec']!r})")
+                    info.setdefault("dofs", []).append(repr(float(r["nu"])))
                 if not math.isfinite(r["nu"]):
                     c.count("fallback_applied")
         if probs:
@@ -721,7 +731,9 @@ def correspond_trainer(tier):
         ce = rng.choice([1, 2, 3, 5])
         it = rng.randint(0, 7)
         fitted = rng.random() < 0.6
-        fbv = rng.choice([None, 1e6, 7.5, 123.25, 1.0])
+        fb_spec = rng.choice([None, ["float", 1e6], ["float", 7.5], ["float", 123.25], ["float", 1.0], ["int", 1], ["int", 1000000],
+                              ["np.int64", 12], ["np.float32", 7.5], ["bool", True]])
+        fbv = base.make_fb(fb_spec)
         K = rng.randint(1, 3)
         raw = sorted(rng.sample(range(0, 7), K))
         labels = [raw[i % K] for i in range(2 * n)]
@@ -734,11 +746,12 @@ def correspond_trainer(tier):
             c.disagree(input=f"trainer d={d} n={n} beta={beta} clustering={clustering} ce={ce} iter={it} fitted={fitted} fb={fbv}",
                        impl=f"raised {type(e).__name__}: {e}", model="-",
                        trainer_case={"d": d, "n": n, "beta": beta, "clustering": clustering, "ce": ce, "it": it, "fitted": fitted,
-                                     "fbv": fbv, "dofs_hex": [f2hex(float(v)) for v in dofs], "labels": [int(v) for v in labels],
+                                     "fbv": None if fbv is None else float(fbv), "fb_spec": fb_spec, "dofs_hex": [f2hex(float(v)) for v in dofs], "labels": [int(v) for v in labels],
                                      "seed": seed})
             c.case((t,), False)
             continue
-        cfg_fb = 1.0 if fbv is None else fbv      # Trainer's own default
+        cfg_fb = 1.0 if fbv is None else float(fbv)      # Trainer's own default
+        c.count("fallback_form_" + ("default" if fb_spec is None else fb_spec[0]))
         oc = (it % ce == 0) or it == 0
         flags = f" bz={int(beta == 0.0)} cl={int(clustering)} oc={int(oc)} ft={int(fitted)}"
         if seen["ctor"] is None:
@@ -754,10 +767,11 @@ def correspond_trainer(tier):
         fits = ["stub:" + _dof_s(v) for v in dofs[:max(used, 1)]]
         lines.append("tpath.X" + flags)
         lines.append(_modes_line("trainer", u_in, w_in, lab_in, cfg_fb, 4, us, fits, extra=flags))
-        tc = {"d": d, "n": n, "beta": beta, "clustering": clustering, "ce": ce, "it": it, "fitted": fitted, "fbv": fbv,
+        tc = {"d": d, "n": n, "beta": beta, "clustering": clustering, "ce": ce, "it": it, "fitted": fitted,
+              "fbv": None if fbv is None else float(fbv), "fb_spec": fb_spec,
               "dofs_hex": [f2hex(float(v)) for v in dofs], "labels": [int(v) for v in labels], "seed": seed}
-        cases.append((real_path, ms, dofs[:used], cfg_fb, d, (d, n, beta, clustering, ce, it, fitted, fbv), tc))
-        c.case((d, n, beta, clustering, ce, it, fitted, fbv, [repr(float(v)) for v in dofs], seed),
+        cases.append((real_path, ms, dofs[:used], cfg_fb, d, (d, n, beta, clustering, ce, it, fitted, repr(fb_spec)), tc))
+        c.case((d, n, beta, clustering, ce, it, fitted, repr(fb_spec), [repr(float(v)) for v in dofs], seed),
                real_path == "dummy" or any(base._dof_tag(v) != "fin" for v in dofs[:used]))
         c.count("path_" + real_path)
         c.count("fallback_default" if fbv is None else "fallback_configured")
@@ -1214,6 +1228,15 @@ def correspond_property(tier):
         if msg:
             c.disagree(input=f"noraise d={d} n={n} kind={kind}", impl=msg, model="returns its last valid estimate",
                        data_hex=[f2hex(v) for v in data.ravel()], shape=[n, d], kind="noraise", degenerate=True)
+    # the statement's dof clauses through the two constructors with the real fit, option and arrays in every accepted form
+    for t in range(36 if tier == "quick" else 500):
+        case = forms_case(rng)
+        msg = forms_oracle(case)
+        c.case(("forms", tuple(sorted((k, repr(v)) for k, v in case.items()))), True)
+        c.count("forms_fb_" + case["fb_spec"][0])
+        c.count("forms_checked")
+        if msg:
+            c.disagree(input=f"forms {case}", impl=msg, model="clause holds", forms_case=case)
     rec = [(0, 3, 2), (3, 2, 5)] if tier == "quick" else [(0, 3, 2), (1, 5, 2), (2, 1, 2), (3, 2, 5), (4, 3, 8), (5, 1.5, 6), (6, 2, 1), (7, 8, 2)]
     for seed, nu_true, d in rec:
         msg = base.recovery(seed, nu_true, d=d)
@@ -1230,9 +1253,10 @@ def trainer_oracle(tc):
     """the statement's last sentence on the REAL Trainer.run: every degrees-of-freedom entry of the ModeStatistics handed to the
     mutation step is finite, equals the fit's value where that was finite and the configured Trainer.DOF_FALLBACK where it was not"""
     dofs = [hex2f(h) for h in tc["dofs_hex"]]
+    fbv = base.make_fb(tc["fb_spec"]) if tc.get("fb_spec") else tc["fbv"]
     try:
         ms, seen, events, tr = run_trainer_real(tc["d"], tc["n"], tc["beta"], tc["clustering"], tc["ce"], tc["it"], tc["fitted"],
-                                                tc["fbv"], dofs, tc["labels"], tc["seed"])
+                                                fbv, dofs, tc["labels"], tc["seed"])
     except Exception as e:  # noqa
         return f"Trainer.run raised {type(e).__name__}: {e}"
     got = [float(v) for v in np.asarray(ms.degrees_of_freedom, dtype=float).ravel()]
@@ -1244,7 +1268,7 @@ def trainer_oracle(tc):
     used = dofs[:len(seen["fit_in"])]
     want = [v if math.isfinite(v) else fb for v in used]
     if [f2hex(v) for v in got] != [f2hex(v) for v in want]:
-        return (f"Trainer.run (DOF_FALLBACK={fb!r}, path via from_{seen['ctor'][0]}): fits returned dof {used}, "
+        return (f"Trainer.run (DOF_FALLBACK={tr.DOF_FALLBACK!r} [{type(tr.DOF_FALLBACK).__name__}], path via from_{seen['ctor'][0]}): fits returned dof {used}, "
                 f"degrees_of_freedom={got} (want {want})")
     return None
 
@@ -1259,14 +1283,19 @@ def sweep_cases(tier):
     rng = common.rng_for("C19.search.paths")
     out = []
     for beta, clustering, it, fitted in ((0.5, True, 0, False), (0.5, True, 3, True), (0.5, False, 1, True), (0.0, True, 1, True)):
-        for fbv in (7.5, None):
-            for dofs in ([math.inf, math.nan], [3.5, math.inf]):
+        for fbv, spec in ((7.5, None), (None, None), (1.0, ["int", 1]), (12.0, ["np.int64", 12])):
+            for dofs in ([math.inf, math.nan], [3.5, math.inf], [0.6, 2.45]):
                 labels = [0, 2] * 12
                 out.append({"kind": "trainer", "trainer_case": {
-                    "d": 2, "n": 10, "beta": beta, "clustering": clustering, "ce": 2, "it": it, "fitted": fitted, "fbv": fbv,
+                    "d": 2, "n": 10, "beta": beta, "clustering": clustering, "ce": 2, "it": it, "fitted": fitted, "fbv": fbv, "fb_spec": spec,
                     "dofs_hex": [f2hex(v) for v in dofs], "labels": labels, "seed": rng.getrandbits(31)}})
     for cfg in handoff_cfgs("quick", rng)[:2 if tier == "quick" else 6]:
         out.append({"kind": "handoff", "handoff_cfg": cfg})
+    for t in range(30 if tier == "quick" else 300):
+        case = forms_case(rng)
+        if t % 2:
+            case["nu_true"], case["fb_spec"] = 0.6, rng.choice([["int", 1], ["int", 1000000], ["np.int64", 12], ["bool", True]])
+        out.append({"kind": "forms", "forms_case": case})
     # one Trainer over several iterations while the weighted population contracts and drifts (cluster_every >= 2: the iterations
     # that reuse the clustering) -- every mode handed to the kernel must be the fit of its own rows
     for t in range(24 if tier == "quick" else 200):
@@ -1276,3 +1305,60 @@ def sweep_cases(tier):
             cfg["law"] = "gauss"
         out.append({"kind": "sequence", "sequence_cfg": cfg})
     return out
+
+
+def forms_case(rng):
+    return {"seed": rng.getrandbits(31), "d": rng.choice([1, 2, 3]), "n": rng.randint(40, 120), "nu_true": rng.choice([0.6, 0.6, 1.5, 2.45, 4.45, 30]),
+            "kind": rng.choice(["global", "particles"]), "fb_spec": rng.choice([s_ for s_ in base.FB_SPECS if s_ is not None]),
+            "wform": rng.choice(base.W_FORMS), "uform": rng.choice(base.U_FORMS)}
+
+
+def forms_oracle(case):
+    """REAL from_global / from_particles with the REAL fit on a t_nu sample, the option dof_fallback and the arrays given in the stated
+    form: every degrees-of-freedom entry is the nu its fit returned bit for bit — in (0, inf), no truncation — when that was finite,
+    and the fallback's value otherwise; the location lies in the bounding box of the rows fitted"""
+    import tempest.modes as tm
+    g = np.random.default_rng(case["seed"])
+    d, n, nu = case["d"], case["n"], case["nu_true"]
+    z = g.standard_normal((n, d)) / np.sqrt(g.chisquare(nu, size=(n, 1)) / nu)
+    u = 0.5 + 0.05 * z
+    labels = (np.arange(n) % 2) * 3
+    w = g.random(n) + 0.1
+    fb = base.make_fb(case["fb_spec"])
+    rec = []
+    real_fit = tm.fit_mvstud
+
+    def obs(x, *a, **k):
+        with contextlib.redirect_stdout(io.StringIO()):
+            out = real_fit(x, *a, **k)
+        rec.append((np.array(x, dtype=float), float(out[2]), np.asarray(out[0], dtype=float)))
+        return out
+
+    with common.patched(tm, "fit_mvstud", obs), warnings.catch_warnings():
+        warnings.simplefilter("ignore")
+        np.random.seed(case["seed"])
+        try:
+            if case["kind"] == "global":
+                ms = tm.ModeStatistics.from_global(base.form_u(u, case["uform"]), base.form_w(w, case["wform"]), dof_fallback=fb)
+            else:
+                ms = tm.ModeStatistics.from_particles(base.form_u(u, case["uform"]), base.form_w(w, case["wform"]), labels, dof_fallback=fb)
+        except np.linalg.LinAlgError:
+            return None           # the constructor refusing a singular scale matrix (degenerate resample): C14's contract
+        except Exception as e:  # noqa
+            return f"from_{case['kind']} raised {type(e).__name__}: {e}"
+    got = [float(v) for v in np.asarray(ms.degrees_of_freedom, dtype=float).ravel()]
+    tag = (f"ModeStatistics.from_{case['kind']}(dof_fallback={fb!r} [{type(fb).__name__}], weights as {case['wform']}, u as {case['uform']}) on a "
+           f"t_{nu} sample (n={n}, d={d}, default_rng({case['seed']}))")
+    if len(got) != len(rec):
+        return f"{tag}: {len(rec)} fits, {len(got)} degrees of freedom"
+    for k, ((x, nu_fit, mu), y) in enumerate(zip(rec, got)):
+        want = nu_fit if math.isfinite(nu_fit) else float(fb)
+        if not (y > 0 and math.isfinite(y)):
+            return f"{tag}: mode {k}: the fit returned nu={nu_fit!r}, degrees_of_freedom={y!r} is not in (0, inf)"
+        if f2hex(y) != f2hex(want):
+            return f"{tag}: mode {k}: the fit returned nu={nu_fit!r}, degrees_of_freedom={y!r} (want {want!r})"
+        lo, hi = x.min(0), x.max(0)
+        m = np.asarray(ms.means[k], dtype=float)
+        if np.any(m < lo - 1e-12 * (np.abs(lo) + np.abs(hi))) or np.any(m > hi + 1e-12 * (np.abs(lo) + np.abs(hi))):
+            return f"{tag}: mode {k}: location {m.tolist()} outside the bounding box of its rows"
+    return None
